@@ -94,6 +94,7 @@ func runC10(c *eng.Ctx) {
 	lookupMissIsFinalOnlyOnCurrentSnapshot(c)
 	cachedBucketIsNotRecycled(c)
 	forwardEntryIsFresh(c)
+	dictionaryKeysOwnTheirMemory(c)
 	c.Rule("ORDER", midT+".Flush{postings<series-dictionary}", func() { indexFlushSeriesLast(c) })
 
 	// ---- 1. walkers exhaustive and in agreement -----------------------------------------------------------------------------
